@@ -45,9 +45,22 @@ pub fn generate(seed: u64, tier: &str) -> Scenario {
                 p.source %= crate::e1::ops::EXECD_SOURCES;
             }
         };
+        // likewise an environment with a name too long for a file name: the write fails
+        // half-way, and how far it got depends on map order
+        let short = |env: &mut crate::envmodel::EnvSpec| {
+            for e in env.iter_mut() {
+                e.name.truncate(200);
+            }
+        };
         match op {
             Op::WriteExecD { progs, .. } => fix(progs),
-            Op::Handle { result, .. } => fix(&mut result.execd),
+            Op::Handle { result, .. } => {
+                fix(&mut result.execd);
+                if let Some(env) = result.env.as_mut() {
+                    short(env);
+                }
+            }
+            Op::WriteEnv { env, .. } => short(env),
             _ => {}
         }
     }
